@@ -50,7 +50,8 @@ PiFun(r) == [i \in 0..(r.N - 1) |-> r.pi[i + 1]]
 MarshalOKr(i) == LET r == Traces[i] IN
                  /\ Len(r.pi) = r.N /\ Cardinality(ToSet(r.pi)) = r.N
                  /\ (r.kernel = "quso" => QusoSym(r))
-                 /\ Relabel(Model, PiFun(r)) = WoOffset(UserP)
+                 \* kernel_only records (the repository's own tests, run with the hook on) carry no caller-side model
+                 /\ (r.kernel_only \/ Relabel(Model, PiFun(r)) = WoOffset(UserP))
                  /\ (r.matrix => \A x \in 0..(r.N - 1) : r.pi[x + 1] = x)
 
 Flip(mi, i) == IF i \in mi THEN mi \ {i} ELSE mi \cup {i}
